@@ -1,0 +1,70 @@
+//! Verification hooks (compiled only with `--cfg iwe_verif`).
+//!
+//! Named points on the message loop and on request workers. A harness may
+//! install a closure that records each point and may block in it, which lets a
+//! scheduler drive chosen interleavings of the loop with the workers. With no
+//! hook installed every point is a no-op.
+
+use std::sync::{Arc, RwLock};
+
+use lsp_server::RequestId;
+
+#[derive(Debug, Clone)]
+pub enum Point {
+    /// loop thread: a request was taken from the inbox and its worker spawned
+    ReqTaken(RequestId),
+    /// worker thread: first statement of `on_request`
+    WStart(RequestId),
+    /// worker thread: result computed, about to respond
+    WComputed(RequestId),
+    /// worker thread: leaving `on_request` normally (responses, if any, were sent)
+    WReturn(RequestId),
+    /// worker thread: leaving `on_request` by unwinding
+    WPanic(RequestId),
+    /// loop thread: a notification other than `exit` is about to be handled
+    NotifBegin(String),
+    /// loop thread: the notification handler returned normally
+    NotifDone,
+    /// loop thread: a panic while handling a message was caught
+    LoopPanic(String),
+    /// loop thread: `exit` received
+    LoopExit,
+    /// loop thread: answer to the `$/verif/refs` probe
+    Refs(usize),
+}
+
+pub type Hook = Arc<dyn Fn(&Point) + Send + Sync>;
+
+static HOOK: RwLock<Option<Hook>> = RwLock::new(None);
+
+pub fn install(hook: Option<Hook>) {
+    *HOOK.write().unwrap() = hook;
+}
+
+pub fn at(point: Point) {
+    let hook = HOOK.read().unwrap().clone();
+    if let Some(hook) = hook {
+        hook(&point);
+    }
+}
+
+pub struct WorkerGuard {
+    id: RequestId,
+}
+
+impl WorkerGuard {
+    pub fn new(id: RequestId) -> WorkerGuard {
+        at(Point::WStart(id.clone()));
+        WorkerGuard { id }
+    }
+}
+
+impl Drop for WorkerGuard {
+    fn drop(&mut self) {
+        if std::thread::panicking() {
+            at(Point::WPanic(self.id.clone()));
+        } else {
+            at(Point::WReturn(self.id.clone()));
+        }
+    }
+}
